@@ -197,6 +197,18 @@ class SAssign(S):
     def coq(self): return f"(SAssign {cs(self.x)} {self.e.coq()})"
 
 
+class SAug(S):
+    """target: EVar or EField; op in + - * / ^"""
+    def __init__(self, target, op, e): self.target, self.op, self.e = target, op, e
+    def mamba(self, ind): return [IND * ind + f"{self.target.mamba()} {self.op}= {self.e.mamba()}"]
+    def desugar(self):
+        rhs = EOp(self.op, self.target, self.e)
+        if isinstance(self.target, EVar):
+            return SAssign(self.target.x, rhs)
+        return SSetField(self.target.o, self.target.f, rhs)
+    def coq(self): return self.desugar().coq()
+
+
 class SSetField(S):
     def __init__(self, o, f, e): self.o, self.f, self.e = o, f, e
     def mamba(self, ind): return [IND * ind + f"{self.o.mamba()}.{self.f} := {self.e.mamba()}"]
@@ -326,7 +338,8 @@ class FDef:
 
     def mamba(self, ind, is_method=False):
         ps = (["self"] if is_method else []) + [p.mamba() for p in self.params]
-        head = f"def {self.name}({', '.join(ps)})" + (f" -> {self.ret.mamba()}" if self.ret else "")
+        shown = {v: k for k, v in OPS.items()}.get(self.name, self.name) if is_method else self.name
+        head = f"def {shown}({', '.join(ps)})" + (f" -> {self.ret.mamba()}" if self.ret else "")
         if self.raises:
             head += f" raise [{', '.join(self.raises)}]"
         out = [IND * ind + head + " =>"]
@@ -588,6 +601,8 @@ class Spec:
                 env[s.x] = (s.ann, s.mut)
             else:
                 env[s.x] = (t, s.mut)
+        elif isinstance(s, SAug):
+            self.stmt(R, env, s.desugar())
         elif isinstance(s, SAssign):
             self.req(s.x in env and env[s.x][1], f"cannot assign {s.x}")
             t = self.ty(env, s.e)
@@ -998,6 +1013,7 @@ class Gen:
         kinds = ["def"] * 4 + ["print"] * 2
         if any(m and not t.n for t, m in env.values()): kinds += ["assign"] * 2
         if any(t.n and m for t, m in env.values()): kinds += ["assign-null"]
+        if any(m and not t.n and t.c in ("Int", "Float", "Str") for t, m in env.values()): kinds += ["aug"] * 2
         if any((not t.n) and t.c in self.cinfo for t, _ in env.values()): kinds += ["setfield", "callstmt"]
         if self.finfo: kinds += ["callstmt"]
         if depth > 0:
@@ -1025,6 +1041,17 @@ class Gen:
             t = r.choice([INT, STR, BOOL, FLOAT])
             s = SPrint(self.exact(t, env, 2, scope, pos))
             self.sites.append(Site("str-recv", pos, t, s, "e", scope))
+            return [s]
+        if k == "aug":
+            # compound assignment: `x op= e` is `x := x op e` (reassign_op), the result of the operator must fit x
+            xs = [x for x, (t, m) in env.items() if m and not t.n and t.c in ("Int", "Float", "Str")]
+            x = r.choice(xs)
+            T = env[x][0]
+            op = {"Int": ["+", "-", "*"], "Float": ["+", "-", "*", "/"], "Str": ["+"]}[T.c]
+            ot = r.choice([INT, FLOAT]) if T.c == "Float" else T
+            s = SAug(EVar(x), r.choice(op), self.exact(ot, env, 1, scope, pos))
+            self.sites.append(Site("aug-operand", pos, T, s, "e", scope))
+            self.sites.append(Site("aug-op", pos, T, s, "op", scope))
             return [s]
         if k in ("assign", "assign-null"):
             # the new value goes through a fresh variable of exactly the declared type: the implementation unifies the
@@ -1173,7 +1200,9 @@ class Gen:
             cond = EOp(">", EVar(ivars[0]), EInt(r.randint(2, 6))) if ivars else EBool(False)
             body.append(SIf(cond, [SRaise(exc, [EStr("big")])], []))
         f.body = body
-        if ret is not None:
+        if ret is not None and not raises and r.random() < 0.4:
+            self.trailing_result(f, e1, pos, ret)
+        elif ret is not None:
             for attempt in range(12):
                 mark = len(self.sites)
                 f.result = self.expr(ret, e1, 2 if attempt < 8 else 3, f, pos, typed_site=True)
@@ -1193,11 +1222,48 @@ class Gen:
             self.sites.append(Site("ret", pos, ret, f, "result", f))
         return f
 
+    def trailing_result(self, f, env, pos, ret):
+        """an explicit `return` on some path (inside an if or a loop) and an IMPLICITLY returned trailing expression.
+        The trailing expression is one whose text is unique and whose type is exactly the declared one - a parameter, a
+        local variable, a call - so that the `fun body type` constraint, which precedes the body (D69), retypes
+        nothing else."""
+        r = self.r
+        env = dict(env)
+        early = SReturn(self.expr(ret, env, 1, f, pos + "/branch", typed_site=True))
+        self.sites.append(Site("ret", pos + "/branch", ret, early, "e", f))
+        guard = SIf(self.exact(BOOL, env, 1, f, pos), [early], [])
+        if r.random() < 0.35:
+            i = self.fresh("i")
+            f.body.append(SFor(i, EInt(0), EInt(r.randint(1, 2)), [guard]))
+        else:
+            f.body.append(guard)
+        cands = [EVar(x) for x, (t, _) in env.items() if t == ret and x != "self"]
+        for g in self.finfo:
+            if g[2] == ret and not g[3] and r.random() < 0.5:
+                e = ECall(g[0], [])
+                self.call_args(g[1], env, 2, f, pos, e, "funarg")
+                cands.append(e)
+                break
+        if cands:
+            f.result = r.choice(cands)
+        else:
+            tv = self.fresh("r")
+            d = SDef(tv, False, ret, self.expr(ret, env, 2, f, pos, typed_site=True))
+            self.sites.append(Site("init", pos, ret, d, "e", f))
+            f.body.append(d)
+            f.result = EVar(tv)
+        f.ret_stmt = False
+        self.results.setdefault(f.result.mamba(), ret)
+        self.sites.append(Site("trail", pos, ret, f, "result", f))
+
     def gen_class(self, parent=None):
         r = self.r
         name = "C" + self.fresh("k")
         nf = r.randint(1, 3) if not getattr(self, "small", False) else r.randint(1, 2)
         fields = [(self.fresh("a"), self.maybe_null(self.core_ty())) for _ in range(nf)]
+        if self.cinfo and r.random() < 0.4:
+            # a field of an earlier class: stores of a child / parent instance into it are mutation sites
+            fields.append((self.fresh("a"), Ty(r.choice(list(self.cinfo)))))
         info = {"fields": list(fields), "methods": [], "parent": None}
         par = None
         if parent:
@@ -1226,10 +1292,10 @@ class Gen:
             self.cinfo_exc = e
             self.excs.append(e)
             self.classes.append(CDef(e, [("msg", STR)], [], ("Exception", [EVar("msg")])))
-        ncls = r.randint(1, 2) if not small else (2 if r.random() < 0.35 else 1)
+        ncls = r.randint(1, 2) if not small else (2 if r.random() < 0.5 else 1)
         for i in range(ncls):
             base = None
-            if i == 1 and r.random() < 0.5:
+            if i == 1 and r.random() < 0.6:
                 cands = [c for c in self.cinfo if all(not t.n for _, t in self.cinfo[c]["fields"])]
                 base = cands[0] if cands else None
             self.gen_class(base)
@@ -1258,9 +1324,39 @@ def scope_block(prog, site):
     return site.scope.body if site.scope is not None else prog.main
 
 
-def mutant_candidates(sites, kinds):
+REL_SITES = ("arg", "funarg", "init", "assign", "setfield", "ret", "trail", "operand", "aug-operand")
+
+
+def related(prog, T):
+    """(strict supertype, strict subtype) of the non-nullable class of T in the program's hierarchy, None if there is none"""
+    sup = {"Int": "Float", "Float": "Complex"}.get(T.c)
+    sub = {"Float": "Int", "Complex": "Float"}.get(T.c)
+    for c in prog.classes:
+        if c.name == T.c and c.parent and c.parent[0] != "Exception":
+            sup = c.parent[0]
+        if c.parent and c.parent[0] == T.c:
+            sub = c.name
+    return sup, sub
+
+
+def default_value(prog, c):
+    """an expression of exactly class c (literals and constructor calls only)"""
+    lit = {"Int": EInt(7), "Float": EFloat("2.5"), "Str": EStr("dv"), "Bool": EBool(True)}
+    if c in lit:
+        return copy.deepcopy(lit[c])
+    if c == "Complex":
+        return ECall("Complex", [EInt(1), EInt(2)])
+    cd = [x for x in prog.classes if x.name == c][0]
+    return ECall(c, [default_value(prog, t.c) for _, t in cd.fields])
+
+
+def mutant_candidates(sites, kinds, prog=None):
     """[(site index, mutation kind)] applicable at each site"""
     out = []
+    stores = {}
+    for site in sites:
+        if site.kind == "setfield":
+            stores[site.holder.f] = stores.get(site.holder.f, 0) + 1
     for idx, site in enumerate(sites):
         T = site.expected
         cands = []
@@ -1277,15 +1373,33 @@ def mutant_candidates(sites, kinds):
             if "nullable" in kinds: cands.append("nullable")
         elif site.kind in ("str-recv", "bool-recv", "op-recv"):
             if "nullable" in kinds: cands.append("nullable")
+            if "nullable-subtype" in kinds and prog is not None and site.kind == "op-recv" and related(prog, T)[1]:
+                cands.append("nullable-subtype")
             if site.kind == "op-recv" and "none" in kinds: cands.append("none")
+        elif site.kind == "aug-op":
+            # the RESULT of the operator must fit the target: `/=` on an Int is a Float, Str has no `-`
+            if "aug-result" in kinds and T.c in ("Int", "Str"): cands.append("aug-result")
         elif site.kind == "default":
             if "wrong-type" in kinds and T.c in WRONG: cands.append("wrong-type")
             if "none" in kinds and not T.n: cands.append("none")
-        else:   # arg funarg init assign setfield ret operand range harm-val quest-default
+        else:   # arg funarg init assign setfield ret trail operand range harm-val quest-default
             if "wrong-type" in kinds: cands.append("wrong-type")
             if not T.n:
                 if "none" in kinds: cands.append("none")
                 if "nullable" in kinds: cands.append("nullable")
+            if prog is not None and site.kind in REL_SITES:
+                sup, sub = related(prog, T)
+                if "supertype" in kinds and sup: cands.append("supertype")
+                # a second value of another exact type for one field is refused (D68): only single-store fields
+                if "subtype" in kinds and sub and not (site.kind == "setfield" and stores.get(site.holder.f, 0) > 1):
+                    if site.kind not in ("operand", "aug-operand"):
+                        cands.append("subtype")
+                if "nullable-subtype" in kinds and sub and not T.n:
+                    cands.append("nullable-subtype")
+                if site.kind not in ("operand", "aug-operand"):
+                    if "supertype-field" in kinds and T.c == "Int": cands.append("supertype-field")
+                    if "subtype-field" in kinds and T.c == "Float" and not (site.kind == "setfield" and stores.get(site.holder.f, 0) > 1):
+                        cands.append("subtype-field")
         out += [(idx, mk) for mk in cands]
     return out
 
@@ -1313,12 +1427,33 @@ def apply_mutant(prog, sites, idx, mk, rng):
     elif mk == "wrong-recv":
         scope_block(pc, s).insert(0, SDef("wr", False, STR, EStr("w")))
         s.put(EVar("wr")); desc["got"] = "Str"
+    elif mk == "aug-result":
+        s.put("/" if T.c == "Int" else "-"); desc["got"] = "Float" if T.c == "Int" else "no such operator"
+    elif mk == "nullable-subtype":
+        # None / S? where a strict SUPERtype T of S is declared: `def a: Int? := None` / `def b: Float := a`
+        sub = related(pc, T)[1]
+        scope_block(pc, s).insert(0, SDef("nq", True, Ty(sub, True), ENone()))
+        s.put(EVar("nq")); desc["got"] = sub + "?"
+    elif mk in ("supertype", "subtype"):
+        # a value of a strictly wider (must be refused) / strictly narrower (must be accepted) type, held by a fresh
+        # variable declared at that type
+        sup, sub = related(pc, T)
+        c = sup if mk == "supertype" else sub
+        scope_block(pc, s).insert(0, SDef("rv", False, Ty(c), default_value(pc, c)))
+        s.put(EVar("rv")); desc["got"] = c
+    elif mk in ("supertype-field", "subtype-field"):
+        # the same through a field READ: class Hq(def hf: Float, def hi: Int); hq.hf where an Int is declared, hq.hi
+        # where a Float is declared
+        pc.classes.insert(0, CDef("Hq", [("hf", FLOAT), ("hi", INT)], []))
+        scope_block(pc, s).insert(0, SDef("hq", False, None, ECall("Hq", [EFloat("2.5"), EInt(3)])))
+        fld = "hf" if mk == "supertype-field" else "hi"
+        s.put(EField(EVar("hq"), fld)); desc["got"] = "Hq." + fld
     return desc, pc
 
 
 def mutants(prog, sites, kinds, rng, per_site=1):
     """every applicable single-point mutant (thorough tier)"""
-    for idx, mk in mutant_candidates(sites, kinds):
+    for idx, mk in mutant_candidates(sites, kinds, prog):
         yield apply_mutant(prog, sites, idx, mk, rng)
 
 
@@ -1633,6 +1768,166 @@ def corpus():
         src="def x := 7\nprint(-x)\n", note="no constraint is generated for the unary minus node")
     add("if-expression-printed", "conforming", "C05", "str-recv", "-", "top",
         src="def x := 7\nprint(if x > 1 then 2 else 3)\n", note="if-expression as argument of print")
+    # ---- (A) explicit early return on one path + implicitly returned trailing expression
+    def early(fname, params, ret, trailing, extra=()):
+        return FDef(fname, params, ret, list(extra) + [SIf(EOp(">", EVar("x"), EInt(0)), [SReturn(EVar("x"))], [])],
+                    trailing, ret_stmt=False)
+    idf = FDef("idf", [_p("a", INT)], INT, [], EVar("a"))
+    add("trail-after-return-ok", "conforming", "C05", "trail", "-", "fun",
+        Program([], [early("f", [_p("x", INT)], INT, EVar("x"))], [SPrint(ECall("f", [EInt(1)]))]))
+    add("trail-after-return-str", "nonconforming", "C05", "trail", "wrong-type", "fun",
+        Program([], [early("f", [_p("x", INT)], INT, EStr("negative"))], []))
+    add("trail-after-return-param-str", "nonconforming", "C05", "trail", "wrong-type", "fun",
+        Program([], [early("f", [_p("x", INT), _p("s", STR)], INT, EVar("s"))], []))
+    add("trail-after-return-call-ok", "conforming", "C05", "trail", "-", "fun/nested-arg",
+        Program([], [idf, early("f", [_p("x", INT)], INT, ECall("idf", [EVar("x")]))], []))
+    add("trail-after-return-call-str", "nonconforming", "C05", "trail", "wrong-type", "fun",
+        Program([], [FDef("sf", [_p("a", INT)], STR, [], EStr("s")), early("f", [_p("x", INT)], INT, ECall("sf", [EVar("x")]))], []))
+    add("trail-after-loop-return-none", "nonconforming", "C05", "trail", "none", "fun/loop",
+        Program([], [FDef("f", [_p("x", INT), _p("n", INT.opt())], INT,
+                          [SFor("i", EInt(0), EInt(3), [SIf(EOp(">", EVar("i"), EVar("x")), [SReturn(EVar("i"))], [])])],
+                          EVar("n"), ret_stmt=False)], []))
+    add("trail-after-return-method-ok", "conforming", "C05", "trail", "-", "method",
+        Program([C([("a", INT)], [FDef("m", [_p("x", INT)], INT, [SIf(EOp(">", EVar("x"), EInt(0)), [SReturn(EVar("x"))], [])],
+                                       EVar("x"), ret_stmt=False)])], [], []))
+    add("trail-after-return-method-str", "nonconforming", "C05", "trail", "wrong-type", "method",
+        Program([C([("a", INT)], [FDef("m", [_p("x", INT), _p("s", STR)], INT,
+                                       [SIf(EOp(">", EVar("x"), EInt(0)), [SReturn(EVar("x"))], [])], EVar("s"), ret_stmt=False)])], [], []))
+    add("trail-wider-variable", "nonconforming", "C05 C04", "trail", "supertype", "fun",
+        Program([], [early("f", [_p("x", INT)], INT, EVar("w"), extra=[SDef("w", False, FLOAT, EFloat("2.5"))])],
+                [SFor("i", EInt(0), ECall("f", [EInt(0)]), [SPrint(EVar("i"))])]), wrong="TypeError")
+    add("trail-wider-field", "nonconforming", "C05", "trail", "supertype-field", "method",
+        Program([C([("hf", FLOAT)], [FDef("m", [_p("x", INT)], INT,
+                                          [SIf(EOp(">", EVar("x"), EInt(0)), [SReturn(EVar("x"))], [])],
+                                          EField(EVar("self"), "hf"), ret_stmt=False)])], [], []))
+    # ---- (B) values related by subtyping, both directions, stores and reads of fields
+    H = C([("hf", FLOAT), ("hi", INT)], name="H")
+    Bc = C([("a", INT)], name="B")
+    Dc = C([("x", INT)], [], ("B", [EVar("x")]), name="D")
+    Kc = C([("pb", Ty("B")), ("pd", Ty("D"))], name="K")
+    mkh = SDef("h", True, None, ECall("H", [EFloat("2.5"), EInt(3)]))
+    mkk = [SDef("b", False, None, ECall("B", [EInt(1)])), SDef("d", False, None, ECall("D", [EInt(2)])),
+           SDef("k", True, None, ECall("K", [EVar("b"), EVar("d")]))]
+    add("store-float-into-int-field", "nonconforming", "C05", "setfield", "supertype", "top",
+        Program([H], [], [mkh, SDef("g", False, FLOAT, EFloat("1.5")), SSetField(EVar("h"), "hi", EVar("g"))]))
+    add("store-int-into-float-field", "conforming", "C05", "setfield", "subtype", "top",
+        Program([H], [], [mkh, SDef("g", False, INT, EInt(1)), SSetField(EVar("h"), "hf", EVar("g"))]))
+    add("store-float-literal-into-int-field", "nonconforming", "C05", "setfield", "supertype", "top",
+        Program([H], [], [mkh, SSetField(EVar("h"), "hi", EFloat("2.5"))]))
+    add("store-wider-field-into-field", "nonconforming", "C05", "setfield", "supertype-field", "top",
+        Program([H], [], [mkh, SSetField(EVar("h"), "hi", EField(EVar("h"), "hf"))]))
+    add("store-narrower-field-into-field", "conforming", "C05", "setfield", "subtype-field", "top",
+        Program([H], [], [mkh, SSetField(EVar("h"), "hf", EField(EVar("h"), "hi"))]))
+    add("self-store-float-into-int-field", "nonconforming", "C05", "setfield", "supertype", "method",
+        Program([C([("hf", FLOAT), ("hi", INT)], [FDef("put", [_p("v", FLOAT)], None, [SSetField(EVar("self"), "hi", EVar("v"))], None)],
+                   name="H")], [], []))
+    add("self-store-int-into-float-field", "conforming", "C05", "setfield", "subtype", "method",
+        Program([C([("hf", FLOAT), ("hi", INT)], [FDef("put", [_p("v", INT)], None, [SSetField(EVar("self"), "hf", EVar("v"))], None)],
+                   name="H")], [], []))
+    add("store-parent-into-child-field", "nonconforming", "C05", "setfield", "supertype", "top",
+        Program([Bc, Dc, Kc], [], mkk + [SSetField(EVar("k"), "pd", EVar("b"))]))
+    add("store-child-into-parent-field", "conforming", "C05", "setfield", "subtype", "top",
+        Program([Bc, Dc, Kc], [], mkk + [SSetField(EVar("k"), "pb", EVar("d"))]))
+    add("self-store-parent-into-child-field", "nonconforming", "C05", "setfield", "supertype", "method",
+        Program([Bc, Dc, C([("pb", Ty("B")), ("pd", Ty("D"))],
+                           [FDef("sd", [_p("v", Ty("B"))], None, [SSetField(EVar("self"), "pd", EVar("v"))], None)], name="K")], [], []))
+    add("self-store-child-into-parent-field", "conforming", "C05", "setfield", "subtype", "method",
+        Program([Bc, Dc, C([("pb", Ty("B")), ("pd", Ty("D"))],
+                           [FDef("sp", [_p("v", Ty("D"))], None, [SSetField(EVar("self"), "pb", EVar("v"))], None)], name="K")], [], []))
+    add("arg-parent-for-child", "nonconforming", "C05", "funarg", "supertype", "top/nested-arg",
+        Program([Bc, Dc], [FDef("fd", [_p("p", Ty("D"))], INT, [], EField(EVar("p"), "x"))], [SPrint(ECall("fd", [ECall("B", [EInt(1)])]))]))
+    add("arg-child-for-parent", "conforming", "C05", "funarg", "subtype", "top/nested-arg",
+        Program([Bc, Dc], [FDef("fb", [_p("p", Ty("B"))], INT, [], EField(EVar("p"), "a"))], [SPrint(ECall("fb", [ECall("D", [EInt(1)])]))]))
+    add("init-parent-for-child", "nonconforming", "C05", "init", "supertype", "top",
+        Program([Bc, Dc], [], [SDef("v", False, Ty("D"), ECall("B", [EInt(1)]))]))
+    add("return-parent-for-child", "nonconforming", "C05", "ret", "supertype", "fun",
+        Program([Bc, Dc], [FDef("mk", [_p("p", Ty("B"))], Ty("D"), [], EVar("p"))], []))
+    add("read-wider-field-into-int", "nonconforming", "C05", "init", "supertype-field", "top",
+        Program([H], [], [mkh, SDef("v", False, INT, EField(EVar("h"), "hf"))]))
+    add("return-wider-field", "nonconforming", "C05", "ret", "supertype-field", "method",
+        Program([C([("hf", FLOAT)], [FDef("m", [], INT, [], EField(EVar("self"), "hf"))], name="H")], [], []))
+    add("return-narrower-field", "conforming", "C05", "ret", "subtype-field", "method",
+        Program([C([("hi", INT)], [FDef("m", [], FLOAT, [], EField(EVar("self"), "hi"))], name="H")], [], []))
+    add("assign-from-wider-field", "nonconforming", "C05 C04", "assign", "supertype-field", "top",
+        Program([H], [], [mkh, SDef("v", True, INT, EInt(1)), SAssign("v", EField(EVar("h"), "hf")),
+                          SFor("i", EInt(0), EVar("v"), [SPrint(EVar("i"))])]), wrong="TypeError")
+    ctor = ("class K\n    def a: Int\n    def f: Float\n    def __init__(self, x: Int, y: Float) =>\n"
+            "        self.a := %s\n        self.f := %s\n")
+    add("ctor-store-ok", "conforming", "C05", "setfield", "-", "constructor", src=ctor % ("x", "y") + "def k := K(1, 2.5)\n",
+        note="explicit constructors (__init__ with a body) are outside the model")
+    add("ctor-store-float-into-int-field", "nonconforming", "C05", "setfield", "supertype", "constructor", src=ctor % ("y", "y"),
+        note="a Float parameter stored into an Int field")
+    add("ctor-store-int-into-float-field", "conforming", "C05", "setfield", "subtype", "constructor", src=ctor % ("x", "x"),
+        note="an Int parameter stored into a Float field")
+    ctor2 = ("class B(def a: Int)\nclass D(def x: Int): B(x)\nclass K\n    def pb: B\n    def pd: D\n"
+             "    def __init__(self, b: B, d: D) =>\n        self.pb := %s\n        self.pd := %s\n")
+    add("ctor-store-child-into-parent-field", "conforming", "C05", "setfield", "subtype", "constructor", src=ctor2 % ("d", "d"),
+        note="a child instance stored into a parent-typed field")
+    add("ctor-store-parent-into-child-field", "nonconforming", "C05", "setfield", "supertype", "constructor", src=ctor2 % ("b", "b"),
+        note="a parent instance stored into a child-typed field")
+    # ---- (C) compound assignment: the RESULT of the operator must fit the target
+    use_x = SFor("i", EInt(0), EVar("x"), [SPrint(EVar("i"))])
+    add("aug-int-controls", "conforming", "C05 C04", "aug-op", "-", "top",
+        Program([], [], [SDef("x", True, INT, EInt(6)), SAug(EVar("x"), "+", EInt(2)), SAug(EVar("x"), "-", EInt(1)),
+                         SAug(EVar("x"), "*", EInt(3)), use_x,
+                         SDef("s", True, STR, EStr("a")), SAug(EVar("s"), "+", EStr("b")), SPrint(EVar("s")),
+                         SDef("f", True, FLOAT, EFloat("6.0")), SAug(EVar("f"), "/", EInt(2)), SPrint(EVar("f"))]))
+    add("aug-int-div", "nonconforming", "C05 C04", "aug-op", "aug-result", "top",
+        Program([], [], [SDef("x", True, INT, EInt(6)), SDef("y", False, INT, EInt(4)), SAug(EVar("x"), "/", EVar("y")), use_x]),
+        wrong="TypeError")
+    add("aug-int-div-in-function", "nonconforming", "C05 C04", "aug-op", "aug-result", "fun/loop",
+        Program([], [FDef("f", [_p("p", INT)], INT, [SDef("x", True, INT, EVar("p")),
+                                                      SFor("j", EInt(0), EInt(2), [SAug(EVar("x"), "/", EInt(2))])], EVar("x"))],
+                [SFor("i", EInt(0), ECall("f", [EInt(8)]), [SPrint(EVar("i"))])]), wrong="TypeError")
+    add("aug-field-div-in-method", "nonconforming", "C05 C04", "aug-op", "aug-result", "method",
+        Program([C([("a", INT)], [FDef("m", [_p("q", INT)], None, [SAug(EField(EVar("self"), "a"), "/", EVar("q"))], None)])], [],
+                [SDef("c", False, None, ECall("C", [EInt(4)])), SExpr(EMeth(EVar("c"), "m", [EInt(2)])),
+                 SFor("i", EInt(0), EField(EVar("c"), "a"), [SPrint(EVar("i"))])]), wrong="TypeError")
+    add("aug-field-add-ok", "conforming", "C05 C04", "aug-op", "-", "top",
+        Program([C([("a", INT)])], [], [SDef("c", True, None, ECall("C", [EInt(4)])), SAug(EField(EVar("c"), "a"), "+", EInt(1)),
+                                        SPrint(EField(EVar("c"), "a"))]))
+    add("aug-str-plus-int", "nonconforming", "C05", "aug-operand", "wrong-type", "top",
+        Program([], [], [SDef("x", True, INT, EInt(6)), SAug(EVar("x"), "+", EStr("s"))]))
+    vplus = lambda ret, res: C([("a", INT)], [FDef("__add__", [_p("other", Ty("V"))], ret, [], res)], name="V")
+    add("aug-user-operator-result-int", "nonconforming", "C05 C04", "aug-op", "aug-result", "top",
+        Program([vplus(INT, EOp("+", EField(EVar("self"), "a"), EField(EVar("other"), "a")))], [],
+                [SDef("v", True, None, ECall("V", [EInt(1)])), SAug(EVar("v"), "+", ECall("V", [EInt(2)])),
+                 SPrint(EField(EVar("v"), "a"))]), wrong="AttributeError")
+    add("aug-user-operator-ok", "conforming", "C05 C04", "aug-op", "-", "top",
+        Program([vplus(Ty("V"), ECall("V", [EOp("+", EField(EVar("self"), "a"), EField(EVar("other"), "a"))]))], [],
+                [SDef("v", True, None, ECall("V", [EInt(1)])), SAug(EVar("v"), "+", ECall("V", [EInt(2)])),
+                 SPrint(EField(EVar("v"), "a"))]))
+    # ---- (D) None / S? where a strict SUPERtype of S is declared
+    na = SDef("a", False, INT.opt(), ENone())
+    add("nullable-int-into-float-init", "nonconforming", "C06 C04", "init", "nullable-subtype", "top",
+        Program([], [], [na, SDef("b", False, FLOAT, EVar("a")), SPrint(EOp("+", EVar("b"), EFloat("1.5")))]), wrong="TypeError")
+    add("nullable-int-into-float-arg", "nonconforming", "C06", "funarg", "nullable-subtype", "top/nested-arg",
+        Program([], [FDef("f", [_p("x", FLOAT)], FLOAT, [], EVar("x"))], [na, SPrint(ECall("f", [EVar("a")]))]))
+    add("nullable-int-into-float-method-arg", "nonconforming", "C06", "arg", "nullable-subtype", "top/nested-arg",
+        Program([C([("k", INT)], [FDef("m", [_p("x", FLOAT)], FLOAT, [], EVar("x"))])], [],
+                [na, SDef("c", False, None, ECall("C", [EInt(1)])), SPrint(EMeth(EVar("c"), "m", [EVar("a")]))]))
+    add("nullable-int-into-float-return", "nonconforming", "C06", "ret", "nullable-subtype", "fun",
+        Program([], [FDef("f", [_p("x", INT.opt())], FLOAT, [], EVar("x"))], []))
+    add("nullable-int-into-float-operand", "nonconforming", "C06", "operand", "nullable-subtype", "top",
+        Program([], [], [na, SPrint(EOp("+", EFloat("1.5"), EVar("a")))]))
+    add("nullable-int-into-float-field", "nonconforming", "C06", "setfield", "nullable-subtype", "top",
+        Program([C([("hf", FLOAT)])], [], [na, SDef("c", True, None, ECall("C", [EFloat("1.5")])), SSetField(EVar("c"), "hf", EVar("a"))]))
+    add("nullable-int-into-float-assign", "nonconforming", "C06", "assign", "nullable-subtype", "top",
+        Program([], [], [na, SDef("b", True, FLOAT, EFloat("1.5")), SAssign("b", EVar("a"))]))
+    nd = SDef("d", False, Ty("D", True), ENone())
+    add("nullable-child-into-parent-init", "nonconforming", "C06 C04", "init", "nullable-subtype", "top",
+        Program([Bc, Dc], [], [nd, SDef("b", False, Ty("B"), EVar("d")), SPrint(EField(EVar("b"), "a"))]), wrong="AttributeError")
+    add("nullable-child-into-parent-arg", "nonconforming", "C06", "funarg", "nullable-subtype", "top/nested-arg",
+        Program([Bc, Dc], [FDef("fb", [_p("p", Ty("B"))], INT, [], EField(EVar("p"), "a"))], [nd, SPrint(ECall("fb", [EVar("d")]))]))
+    add("nullable-child-into-parent-field", "nonconforming", "C06", "setfield", "nullable-subtype", "top",
+        Program([Bc, Dc, Kc], [], mkk + [nd, SSetField(EVar("k"), "pb", EVar("d"))]))
+    add("nullable-child-into-parent-return", "nonconforming", "C06", "ret", "nullable-subtype", "fun",
+        Program([Bc, Dc], [FDef("up", [_p("p", Ty("D", True))], Ty("B"), [], EVar("p"))], []))
+    # ---- (E) tuples with a nullable element
+    add("tuple-nullable-element-none", "conforming", "C06", "init", "-", "top",
+        src="def t: (Int, Int?) := (1, None)\n", note="None is an Int?; a tuple literal of the declared element types")
+    add("tuple-nullable-element-value", "conforming", "C06", "init", "-", "top",
+        src="def t: (Int, Int?) := (1, 2)\n", note="an Int is an Int?")
     # ---- sanity: plain conforming / non-conforming cases on which everybody agrees
     add("sanity-accept", "conforming", "C05 C06 C04", "-", "-", "top",
         Program([C([("a", INT)], [m_add])], [FDef("f", [_p("x", FLOAT), _p("s", STR, EStr("d"))], FLOAT.opt(),
@@ -1652,11 +1947,11 @@ def corpus():
 # one run: base programs, stratified mutants, corpus; verdicts of implementation, model and specification
 # ------------------------------------------------------------------------------------------------
 class Rec:
-    __slots__ = ("origin", "desc", "prog", "src", "spec", "spec_why", "impl", "model", "py", "corpus")
+    __slots__ = ("origin", "desc", "prog", "src", "spec", "spec_why", "impl", "model", "py", "corpus", "known")
 
     def __init__(self, origin, desc, prog, src, spec, why="", corpus=None):
         self.origin, self.desc, self.prog, self.src, self.spec, self.spec_why = origin, desc, prog, src, spec, why
-        self.impl, self.model, self.py, self.corpus = None, None, None, corpus
+        self.impl, self.model, self.py, self.corpus, self.known = None, None, None, corpus, False
 
 
 def build_cases(rng, profile, kinds, n_base, budget, prop, all_mutants=False, log=print):
@@ -1672,13 +1967,16 @@ def build_cases(rng, profile, kinds, n_base, budget, prop, all_mutants=False, lo
             recs.append(Rec("corpus:" + c["name"], c["desc"], c["prog"], c["prog"].mamba(), ok, why, corpus=c))
         else:
             recs.append(Rec("corpus:" + c["name"], c["desc"], None, c["src"], c["spec"] == "conforming", c["note"], corpus=c))
+    for c in generic_family():
+        if prop in c["props"]:
+            recs.append(Rec("corpus:" + c["name"], c["desc"], None, c["src"], c["spec"] == "conforming", c["note"], corpus=c))
     bases = []
     for b in range(n_base):
         g = Gen(rng, profile)
         p, sites = g.program(4)
         ok, why = Spec(p, sigs).conforms()
         recs.append(Rec(f"base:{b}", {"site": "-", "mutation": "none", "position": "-"}, p, p.mamba(), ok, why))
-        bases.append((b, p, sites, mutant_candidates(sites, kinds)))
+        bases.append((b, p, sites, mutant_candidates(sites, kinds, p)))
     # stratified choice
     pool = [(b, idx, mk, stratum(sites[idx], mk)) for b, p, sites, cands in bases for idx, mk in cands]
     rng.shuffle(pool)
@@ -1801,7 +2099,7 @@ def judge_runs(ck, recs):
         if k in GOES_WRONG:
             n["wrong"] += 1
             p = ck.write_replay("wrong", replay_payload(r, f"accepted program raises {k}: {r.py[1]}"))
-            ck.violation(f"accepted program raises {k}", p, canonical(r, k))
+            r.known = not ck.violation(f"accepted program raises {k}", p, canonical(r, k))
         elif k == "ok":
             n["ok"] += 1
         elif k == "timeout":
@@ -1853,8 +2151,11 @@ def run_check(pid, tier, replay, theorems, targets, module, kinds, profile, with
         n_base, budget = (10, 100) if quick else (150, 10 ** 9)
         if pid == "C04" and quick:
             n_base, budget = 30, 70        # what matters for C04 are ACCEPTED programs: more conforming bases
+        if pid == "C05" and quick:
+            n_base, budget = 14, 220       # eight mutation kinds x site kinds x positions: more strata to hit
         recs, strat = build_cases(ck.rng, profile, kinds, n_base, budget, pid, all_mutants=not quick, log=ck.log)
         evaluate(recs, with_model=True, with_python=with_python, log=ck.log)
+    runs = judge_runs(ck, recs) if with_python else None
     if judge_spec:
         n = judge_verdicts(ck, recs, pid)
     else:
@@ -1872,13 +2173,16 @@ def run_check(pid, tier, replay, theorems, targets, module, kinds, profile, with
                 n["over_rejected_conforming"] = n.get("over_rejected_conforming", 0) + 1
                 n.setdefault("over_rejected_examples", []).append(
                     [r.origin, normalise_diag(r.impl[1].split(": ", 1)[-1])])
+            elif r.known:
+                # accepted, refused by the model, and the run-time oracle has attributed the case to a known finding
+                # (a place where the implementation does not check what the model's rule asks for: D93, D94 ..)
+                n["corr_known"] = n.get("corr_known", 0) + 1
             else:
                 n["corr_bad"] += 1
                 bad_corr.append((r.origin, f"implementation {r.impl[0]}, model (impl quirks) {r.model[1]}", r.src[:600]))
         if bad_corr:
             ck.broken.append({"kind": "correspondence", "where": "transpile verdict vs Typing.check (impl_quirks)",
                               "count": len(bad_corr), "examples": [list(x) for x in bad_corr[:3]]})
-    runs = judge_runs(ck, recs) if with_python else None
     if extra and not replay:
         extra(ck)
     positions = {}
@@ -1914,3 +2218,94 @@ def run_check(pid, tier, replay, theorems, targets, module, kinds, profile, with
         "every generated program must pass the parser, and the three verdicts are compared on every case)",
     ]
     return ck.finish()
+
+
+# ------------------------------------------------------------------------------------------------
+# generic types (tuples, Dict): outside the Coq model; a deterministic family of raw programs that put a VARIABLE of a
+# declared type at every consuming position, judged by the structural rule below
+# ------------------------------------------------------------------------------------------------
+class G:
+    """tuple / dict / core type with a nullable flag"""
+    def __init__(self, kind, args=(), n=False):
+        self.kind, self.args, self.n = kind, list(args), n      # kind: class name | "tuple" | "dict"
+
+    def mamba(self):
+        if self.kind == "tuple":
+            s = "(" + ", ".join(a.mamba() for a in self.args) + ")"
+        elif self.kind == "dict":
+            s = "Dict[" + ", ".join(a.mamba() for a in self.args) + "]"
+        else:
+            s = self.kind
+        return s + ("?" if self.n else "")
+
+    def lit(self):
+        if self.kind == "tuple":
+            return "(" + ", ".join(a.lit() for a in self.args) + ")"
+        if self.kind == "dict":
+            return "{ " + self.args[0].lit() + " => " + self.args[1].lit() + " }"
+        return {"Int": "1", "Str": '"a"', "Bool": "True", "Float": "2.5"}[self.kind]
+
+    def tag(self):
+        inner = "".join(a.tag() for a in self.args)
+        base = {"tuple": "T", "dict": "D"}.get(self.kind, self.kind[0])
+        return base + (inner + "e" if self.args else "") + ("n" if self.n else "")
+
+
+def g_assignable(T, t):
+    """t may be used where T is declared: same constructor and arity, elements assignable; T? accepts T and None;
+    Int <: Float for plain classes; Dict arguments must be equal"""
+    if t.n and not T.n:
+        return False
+    if T.kind != t.kind or len(T.args) != len(t.args):
+        return T.kind == "Float" and t.kind == "Int" and not T.args and not t.args
+    if T.kind == "dict":
+        return all(a.mamba() == b.mamba() for a, b in zip(T.args, t.args))
+    return all(g_assignable(a, b) for a, b in zip(T.args, t.args))
+
+
+def generic_family():
+    """[(name, source, conforming, props, desc)]"""
+    I, S = G("Int"), G("Str")
+    tup = lambda *a, n=False: G("tuple", a, n)
+    dic = lambda k, v: G("dict", [k, v])
+    pairs = [  # (expected, actual, tag of the mutation, property)
+        (tup(I, I), tup(I, I), "same", "C05"),
+        (tup(I, I), tup(S, I), "elem-first", "C05"),
+        (tup(I, I), tup(I, S), "elem-last", "C05"),
+        (tup(I, I, I), tup(S, I, I), "elem-first", "C05"),
+        (tup(I, I, I), tup(I, S, I), "elem-middle", "C05"),
+        (tup(I, I, I), tup(I, I, S), "elem-last", "C05"),
+        (tup(I, I), tup(I, I, I), "arity-more", "C05"),
+        (tup(I, I, I), tup(I, I), "arity-less", "C05"),
+        (dic(I, I), dic(I, I), "same", "C05"),
+        (dic(I, I), dic(S, I), "elem-first", "C05"),
+        (dic(I, I), dic(I, S), "elem-last", "C05"),
+        (tup(I, I), tup(I, I, n=True), "nullable", "C06"),
+        (tup(I, I, n=True), tup(I, I), "into-nullable", "C06"),
+        (tup(S, I), tup(S, I, n=True), "nullable", "C06"),
+        (tup(I, I), tup(I, G("Int", n=True)), "nullable-elem-last", "C06"),
+        (tup(I, I), tup(G("Int", n=True), I), "nullable-elem-first", "C06"),
+    ]
+    out = []
+    for T, t, tag, prop in pairs:
+        ok = g_assignable(T, t)
+        tv = f"def fin t: {t.mamba()} := " + ("None" if t.n else t.lit()) + "\n"
+        progs = {
+            "init": tv + f"def fin u: {T.mamba()} := t\n",
+            "funarg": f"def f(p: {T.mamba()}) -> Int =>\n    return 1\n" + tv + "print(f(t))\n",
+            "arg": f"class K(def a: Int)\n    def m(self, p: {T.mamba()}) -> Int =>\n        return self.a\n" + tv
+                   + "def fin k := K(1)\nprint(k.m(t))\n",
+            "ret": f"def g(p: {t.mamba()}) -> {T.mamba()} =>\n    return p\n",
+            "assign": tv + f"def u: {T.mamba()} := " + ("None" if T.n else T.lit()) + "\nu := t\n",
+            "setfield": f"class K(def f: {T.mamba()})\n" + tv + f"def k := K({T.lit()})\nk.f := t\n",
+        }
+        for pos, src in progs.items():
+            if T.n and pos in ("funarg", "setfield"):
+                continue      # a T? formal of a function / constructor is D67's subject
+            name = f"generic-{pos}-{T.tag()}-from-{t.tag()}"
+            out.append({"name": name, "spec": "conforming" if ok else "nonconforming", "props": {prop, "C04"} if ok else {prop},
+                        "prog": None, "src": src,
+                        "desc": {"site": pos, "mutation": "generic-" + tag, "position": "fun" if pos == "ret" else "top",
+                                 "expected": T.mamba(), "got": t.mamba()},
+                        "expect_wrong": None, "note": "generic types are outside the model; judged by g_assignable"})
+    return out
